@@ -10,6 +10,7 @@
   fixtures.  What is proved here is unbounded: every fan-out `n`, every name, every size.
 -/
 import Desync.Proofs.TarProofs
+import Desync.Proofs.TarGoodbyeSeek
 
 namespace Desync.C13
 open Desync
@@ -87,6 +88,67 @@ theorem one_file_roundtrip (root f : FileRec)
       untar b = .ok [.dir [dot] ⟨root.uid, root.gid, root.mode, root.mtime, []⟩,
                      .file f.base ⟨f.uid, f.gid, f.mode, f.mtime, []⟩ f.size f.data] :=
   untar_tar_one_file root f hrk hrx hfk hfx hpar hname hsz hdata hbase
+
+/-! ### nested trees: every directory, at every depth, ends in a goodbye table that leads to its children
+
+`archive_is_tree_encoding` identifies what `Tar` writes for a well-formed tree with the closed form
+`Tree.body`, which is recursive: the encoding of a sub-directory is again a `Tree.body`.  The four theorems
+after it are therefore statements about the directories at every depth of every archive. -/
+
+/-- the archive written for a tree of any nesting and fan-out is the closed form `Tree.body` -/
+theorem archive_is_tree_encoding (r : FileRec) (cs : List Tree) (hrk : r.kind = .dir)
+    (hcs : Tree.WFList r.path [r.path] cs) :
+    tarStream (Tree.dir r cs).records = some (Tree.dir r cs).body :=
+  tarStream_tree r cs hrk hcs
+
+/-- a directory's encoding ends with its goodbye element -/
+theorem goodbye_closes_directory (f : FileRec) (cs : List Tree) :
+    (Tree.dir f cs).body.drop (Tree.goodbyePos f cs) = encElem (goodbyeElem (Tree.table f cs)) :=
+  goodbye_at_end f cs
+
+/-- **sizes and tail marker**: the table holds one item per child, laid out by `makeGoodbyeBST`, followed
+    by the tail item: back-offset to the directory's own entry, size of the goodbye element, marker -/
+theorem goodbye_tail_item (f : FileRec) (cs : List Tree)
+    (hlen : (Tree.dir f cs).body.length < 2 ^ 64) (hsz : 16 + (cs.length + 1) * 24 < 2 ^ 64) :
+    ∃ bst, Tree.table f cs = bst ++ [⟨UInt64.ofNat (Tree.goodbyePos f cs),
+        UInt64.ofNat (16 + (cs.length + 1) * 24), Gen.CaFormatGoodbyeTailMarker⟩] ∧
+      bst.length = cs.length ∧
+      (encElem (goodbyeElem (Tree.table f cs))).length = 16 + (cs.length + 1) * 24 :=
+  goodbye_table_shape f cs hlen hsz
+
+/-- **correct back-offsets and sizes**: going back `offset` bytes from the start of the goodbye element and
+    reading `size` bytes yields exactly one child's filename element followed by that child's complete
+    encoding, and `hash` is the SipHash-2-4 of that child's name — what casync needs to seek into the archive -/
+theorem goodbye_item_leads_to_child (f : FileRec) (cs : List Tree)
+    (hlen : (Tree.dir f cs).body.length < 2 ^ 64) (hsz : 16 + (cs.length + 1) * 24 < 2 ^ 64)
+    (it : GoodbyeItem) (hit : it ∈ (Tree.table f cs).dropLast) :
+    ∃ t ∈ cs, it.hash = sipHashName t.hd.base ∧
+      it.offset.toNat ≤ Tree.goodbyePos f cs ∧ Tree.hdrLen f ≤ Tree.goodbyePos f cs - it.offset.toNat ∧
+      (((Tree.dir f cs).body.drop (Tree.goodbyePos f cs - it.offset.toNat)).take it.size.toNat
+        = encElem (fnameElem t.hd) ++ t.body) :=
+  goodbye_item_seeks_to_child f cs hlen hsz it hit
+
+/-- **nothing is missing**: every child has an item that leads to it -/
+theorem goodbye_lists_every_child (f : FileRec) (cs : List Tree)
+    (hlen : (Tree.dir f cs).body.length < 2 ^ 64) (hsz : 16 + (cs.length + 1) * 24 < 2 ^ 64)
+    (t : Tree) (ht : t ∈ cs) :
+    ∃ it ∈ (Tree.table f cs).dropLast, it.hash = sipHashName t.hd.base ∧
+      it.offset.toNat ≤ Tree.goodbyePos f cs ∧
+      (((Tree.dir f cs).body.drop (Tree.goodbyePos f cs - it.offset.toNat)).take it.size.toNat
+        = encElem (fnameElem t.hd) ++ t.body) :=
+  goodbye_every_child_listed f cs hlen hsz t ht
+
+/-- **an independent decoder reconstructs the same tree**: the decoder model (written from the decoder's
+    code, sharing nothing with the encoder but the element codec) reads back exactly the tree's nodes,
+    for any nesting and fan-out -/
+theorem nested_tree_decodes_back (r : FileRec) (cs : List Tree)
+    (hrk : r.kind = .dir) (hrx : XattrsOK r.xattrs)
+    (hsize : 16 + (cs.length + 1) * 24 < 2 ^ 64)
+    (hcs : Tree.WFList r.path [r.path] cs) :
+    ∃ b, tarStream (Tree.dir r cs).records = some b ∧
+      untar b = .ok (.dir [dot] ⟨r.uid, r.gid, r.mode, r.mtime, r.xattrs⟩ ::
+        cs.flatMap (Tree.nodes [dot])) :=
+  untar_tar_tree r cs hrk hrx hsize hcs
 
 /-- regenerated constants this property depends on -/
 theorem gen_sites :
